@@ -65,6 +65,19 @@ CHECKS = {
              "exactly `count`; ctx.stacks is read only at four reasoned "
              "sites.",
         ref="DESIGN.md §3 C09"),
+    "C10": dict(
+        technique="interprocedural may-alias + mutation-effect analysis over "
+                  "elements.py/helpers.py (closures included, call-graph "
+                  "fixpoint) and template discipline rules",
+        category="other",
+        text="Decides a necessary condition of immutability for the whole "
+             "element library: no mutator method, subscript/attribute store, "
+             "in-place +=, random.shuffle or mutating callee is ever applied "
+             "to an object that may be a value parameter or one of its items; "
+             "templates do not mutate popped values, copy on duplicate and "
+             "copy interpreter-owned lists before publishing them; deep_copy "
+             "builds a new container for lists and lazy lists.",
+        ref="DESIGN.md §3 C10"),
     "C12": dict(
         technique="stack-height (typestate) analysis over the structured CFG "
                   "of every extracted template x hole state, and of python "
